@@ -189,8 +189,7 @@ class FunctionRun:
                 raise Infeasible()
             env.old = interp.snapshot_env(env)
             penv.old = env.old
-            from .values import SObj, SList, SDict, Opaque
-            entry = {k: v for k, v in env.vars.items() if not isinstance(v, (SObj, SList, SDict, PyList, PyDict, Opaque))}
+            entry = dict(env.vars)  # parameter NAMES denote the entry objects (mutations of objects stay visible)
             outcome, val = "return", None
             try:
                 interp.exec_block(fnode.body, env)
